@@ -118,7 +118,7 @@ def kappa_polar(cart):
     """spherical / cylindrical rates divide by x^2+y^2."""
     r = math.sqrt(cart[0] ** 2 + cart[1] ** 2 + cart[2] ** 2)
     rho = math.hypot(cart[0], cart[1])
-    return (r / rho) ** 2
+    return (r / rho) ** 2 if rho > 0 else float("inf")
 
 
 def cart_err(got, ref):
@@ -497,6 +497,77 @@ def check_walk(case):
     return dict(nt=max(steps) >= 2, cls=cls, ratio=worst)
 
 
+# ------------------------------------------------------------------ containers (how the six numbers are handed over)
+
+CONTAINERS = ["list-int", "tuple-float", "list-mixed", "int64", "float32", "float64", "list-np-scalars", "float64-view"]
+
+
+@st.composite
+def container_case(draw, shard, nshards):
+    # (every coordinate must stay below 2**24 m to be exact in single precision)
+    el = draw(go.elements(elliptic=True, hyperbolic=False, bodies=("Earth", "Earth", "Moon", "Mars"),
+                          emax_ell=0.2, rp_range=(1.03, 1.6)))
+    return dict(el=el, container=draw(st.sampled_from(CONTAINERS)), form=draw(st.sampled_from(FORMS)),
+                via=draw(st.sampled_from(FORMS)))
+
+
+def check_container(case):
+    """The same six numbers (integer-valued metres and metres per second, exactly representable in every type
+    used) handed over as python ints, tuples, integer / single-precision / double-precision arrays: the state
+    is the same, to the last bit, and the caller's container is never written to."""
+    from beyond.dates import Date
+    from beyond.orbits import StateVector
+
+    el = case["el"]
+    mu = mu_of(el["body"])
+    cart = np.round(tb.kep2cart(el["a"], el["e"], el["i"], el["raan"], el["argp"], el["nu"], mu))
+    assume(np.all(np.abs(cart) < 2**24))  # integer-valued and exact in float32
+    e2 = tb.cart2elements(cart, mu)
+    assume(1e-4 <= e2["e"] <= 0.99 and 0.01 < e2["i"] < math.pi - 0.01 and kappa_polar(cart) < 1e6)
+    ints = [int(v) for v in cart]
+    kind = case["container"]
+    given = {
+        "list-int": lambda: ints,
+        "tuple-float": lambda: tuple(float(v) for v in ints),
+        "list-mixed": lambda: [v if k % 2 else float(v) for k, v in enumerate(ints)],
+        "int64": lambda: np.array(ints, dtype=np.int64),
+        "float32": lambda: np.array(ints, dtype=np.float32),
+        "float64": lambda: np.array(ints, dtype=np.float64),
+        "list-np-scalars": lambda: [np.float64(v) for v in ints],
+        "float64-view": lambda: np.array([0.0] + [float(v) for v in ints] + [0.0])[1:7],
+    }[kind]()
+    before = np.array(given, dtype=float).copy()
+    frame = frame_for(el["body"])
+    ref = StateVector([float(v) for v in ints], Date(2020, 1, 1), "cartesian", frame)
+    sv = StateVector(given, Date(2020, 1, 1), "cartesian", frame)
+    if np.asarray(sv).dtype != np.float64:
+        raise Violation("container-dtype", f"state built from {kind} has dtype {np.asarray(sv).dtype}")
+    for f in (case["via"], case["form"], "cartesian"):
+        a, b = sv.copy(form=f), ref.copy(form=f)
+        if not np.array_equal(np.asarray(a), np.asarray(b)):
+            raise Violation("container-value", f"state given as {kind}: {f} coordinates {np.asarray(a).tolist()} differ from those of "
+                            f"the same numbers given as a list of floats {np.asarray(b).tolist()}")
+    sv.form = case["via"]
+    sv.form = case["form"]
+    ref.form = case["via"]
+    ref.form = case["form"]
+    if not np.array_equal(np.asarray(sv), np.asarray(ref)):
+        raise Violation("container-value", f"state given as {kind}, set in place to {case['via']} then {case['form']}: "
+                        f"{np.asarray(sv).tolist()} vs {np.asarray(ref).tolist()} for a list of floats")
+    if not np.array_equal(np.array(given, dtype=float), before):
+        raise Violation("container-modified", f"the caller's {kind} was changed by the state built from it: "
+                        f"{np.array(given, dtype=float).tolist()}, was {before.tolist()}")
+    # and the state is the right one
+    k = kappa(dict(e=e2["e"], i=e2["i"], anom=0.0))
+    if {"spherical", "cylindrical"} & {case["via"], case["form"]}:
+        k *= kappa_polar(cart)
+    dr, dv = cart_err(sv.copy(form="cartesian").base, cart)
+    tol = 3 * (1e-11 * k + 1e-10)
+    if dr > tol or dv > tol:
+        raise Violation("container-roundtrip", f"state given as {kind}: back in cartesian off by dr={dr:.3g} dv={dv:.3g}")
+    return dict(nt=True, cls=["given:" + kind], ratio=max(dr, dv) / tol)
+
+
 FACETS = [
     Facet("roundtrip", lambda s, t: rt_case(s, 16), check_roundtrip,
           rule="every case (A != B or via != A)", quick=(16, 1500), thorough=(32, 8000)),
@@ -506,6 +577,9 @@ FACETS = [
     Facet("infos", lambda s, t: infos_case(s, 16), check_infos,
           rule="every case: all Infos quantities vs. their defining relations",
           quick=(8, 600), thorough=(16, 5000)),
+    Facet("containers", lambda s, t: container_case(s, 16), check_container,
+          rule="every case: eight ways of handing over the same six numbers",
+          quick=(4, 300), thorough=(8, 3000)),
     Facet("walk", lambda s, t: walk_case(s, 16), check_walk,
           rule="some object changed form at least twice; all objects re-read after every op",
           quick=(8, 300), thorough=(16, 3000)),
